@@ -611,6 +611,9 @@ def reference_namespace(r):
         return x._desc.name if isinstance(x, Record) else "UnknownRecord"
 
     def ref_names(x):
+        from flow.record.base import GroupedRecord
+        if isinstance(x, GroupedRecord):
+            return {m._desc.name for m in x.records}        # documented: the names of the member records
         return {x._desc.name} if isinstance(x, Record) else ["UnknownRecord"]
 
     def ref_has_field(x, field):
@@ -1293,6 +1296,73 @@ LAYOUT_EXPRS = ["Type.string == '8080'", "'808' in Type.string", "Type.uint32 ==
                 "any(f == 'port' for f in Type.string)", "any(f == 'a' for f in Type.varint)", "field_equals(r, Type.string, ['8080', 'x7'])"]
 
 
+# grouped records (and records nested in their members) through every record-taking helper of the namespace, fixed
+# cases; ground truth = the library's own helper called DIRECTLY on the record by CPython (not through an engine)
+GROUPED_EXPRS = [
+    "'a/x' in names(r)", "'grp/z' in names(r)", "'b/y' in names(r)", "names(r) == names(r)", "'a/x' in names(r) and 'b/y' in names(r)",
+    "any(n == 'b/y' for n in names(r))", "all(n != name(r) for n in names(r))",
+    "name(r) == 'grp/z'", "name(r) == 'a/x'", "upper(name(r)) == 'GRP/Z'", "name(r) in names(r)",
+    "has_field(r, 's')", "has_field(r, 'n')", "has_field(r, 'sub')", "has_field(r, 'zz')",
+    "'GroupedRecord' in get_type(r)", "'WrappedRecord' in get_type(r)", "get_type(r) == get_type(r)", "'varint' in get_type(r.n)",
+    "'grp/z' in str(r)", "'grp/z' in repr(r)", "str(r) == repr(r)", "'q' in str(r)",
+    "field_equals(r, ['s'], ['Q'])", "field_equals(r, ['s', 'n'], ['q'], nocase=False)", "field_equals(r, ['t'], ['tt'])",
+    "field_contains(r, ['t', 's'], ['t'])", "field_contains(r, ['t'], ['T'], nocase=False)", "field_regex(r, ['t'], '^T')",
+    "field_regex(r, ['s', 't'], 'q$')", "field_equals(r, Type.string, ['TT'])", "field_contains(r, Type.string, ['q'])",
+    "r.s == 'q' and r.n == 1", "Type.string == 'Tt'", "Type.varint > 2", "'T' in Type.string",
+    # the record held by a field of a member
+    "name(r.sub) == 'a/x'", "'a/x' in names(r.sub)", "has_field(r.sub, 's')", "has_field(r.sub, 'n')", "field_equals(r.sub, ['s'], ['INNER'])",
+    "field_contains(r.sub, ['s'], ['nn'])", "field_regex(r.sub, ['s'], '^in')", "'a/x' in str(r.sub)", "'a_x' in get_type(r.sub) or 'Record' in get_type(r.sub)",
+    "any(name(x) == 'a/x' for x in r.subs)", "all('a/x' in names(x) for x in r.subs)",
+]
+
+
+def grouped_records():
+    from flow.record import GroupedRecord, RecordDescriptor
+    A = RecordDescriptor("a/x", [("string", "s"), ("varint", "k")])
+    B = RecordDescriptor("b/y", [("varint", "n"), ("string", "t")])
+    C = RecordDescriptor("c/w", [("record", "sub"), ("record[]", "subs"), ("varint", "m")])
+    a1, b1 = A(s="q", k=3, _generated=TS), B(n=1, t="Tt", _generated=TS)
+    inner = A(s="inner", k=9, _generated=TS)
+    c1 = C(sub=inner, subs=[inner, A(s="x", k=0, _generated=TS)], m=5, _generated=TS)
+    g1 = GroupedRecord("grp/z", [a1, b1])
+    g2 = GroupedRecord("grp/z", [a1, b1, c1])
+    g3 = GroupedRecord("grp/outer", [g1, c1])            # a group inside a group
+    out = []
+    for label, rec in (("GroupedRecord('grp/z', [a/x(s='q', k=3), b/y(n=1, t='Tt')])", g1),
+                       ("GroupedRecord('grp/z', [a/x(s='q', k=3), b/y(n=1, t='Tt'), c/w(sub=a/x(s='inner', k=9), subs=[a/x, a/x], m=5)])", g2),
+                       ("GroupedRecord('grp/outer', [GroupedRecord('grp/z', [a/x, b/y]), c/w(sub=a/x(s='inner'), ...)])", g3),
+                       ("a/x(s='q', k=3)", a1), ("c/w(sub=a/x(s='inner', k=9), subs=[a/x, a/x], m=5)", c1)):
+        out.append(dict(which="grouped:" + label, vals={}, fields=[(f.typename, n) for n, f in rec._desc.fields.items()], rec=rec, coq=None))
+    return out
+
+
+def library_namespace(rec):
+    """CPython's view: the library's helper functions themselves, called directly on the record"""
+    import flow.record.selector as sel
+    ns = {f.__name__: f for f in sel.FUNCTION_WHITELIST}
+    ns.update(r=rec, Type=RefType(rec))
+    ns["__callables__"] = tuple(v for v in ns.values() if callable(v))
+    return ns
+
+
+def grouped_check(ctx, chk):
+    n = 0
+    for r in grouped_records():
+        ns = library_namespace(r["rec"])
+        for text in GROUPED_EXPRS:
+            tree = ast.parse(text, mode="eval")
+            outs = run_pair(text, tree, r, chk.sel_cache, ns=ns)
+            if outs is None:
+                continue
+            n += 1
+            ctx.count_case(("grouped", r["which"], text), nontrivial=True)
+            chk.property_check(text, tree, r, outs)
+            if chk.reported:
+                return n
+    ctx.notes.append("grouped records / records nested in members through every record-taking helper: %d evaluations" % n)
+    return n
+
+
 def layout_check(ctx, chk):
     from flow.record import RecordDescriptor
     n = 0
@@ -1346,13 +1416,13 @@ def exhaustive_small():
 # -------------------------------------------------------------------------------------------------
 # one (expression, record) pair on the implementation
 
-def run_pair(text, tree, r, sel_cache):
+def run_pair(text, tree, r, sel_cache, ns=None):
     from flow.record.selector import CompiledSelector, Selector
     rec = r["rec"]
     if text not in sel_cache:
         sel_cache[text] = (Selector(text), CompiledSelector(text), compile(text, "<c07>", "eval"))
     s, c, code = sel_cache[text]
-    ns = reference_namespace(r)
+    ns = reference_namespace(r) if ns is None else ns
     # "probe": eager like strict but nothing is Undefined -- only to find operations that would exhaust memory
     if probe_too_big(tree, ns):
         return None
@@ -1449,6 +1519,8 @@ class Checker:
 
 
 def fmt_vals(r):
+    if r["which"].startswith("grouped:"):
+        return r["which"][len("grouped:"):]
     return "%s(%s)" % (r["which"], ", ".join("%s=%r" % kv for kv in r["vals"].items()))
 
 
@@ -1671,6 +1743,9 @@ def search(ctx, reason):
         layout_check(ctx, Checker(ctx, kf))
         if ctx.violations:
             return True
+        grouped_check(ctx, Checker(ctx, kf))
+        if ctx.violations:
+            return True
         # the fixed streams (outside-the-language constructs, typed matchers on nested records) are short: they are tried
         # when the generated stream found nothing, so that a disagreement on an ordinary expression is preferred as witness
         chk, _, _, _ = differential(ctx, kf, 5000 if ctx.tier == "quick" else 40000, 3, rnd, with_coq=False,
@@ -1728,6 +1803,9 @@ def run(ctx):
     layout_check(ctx, chk)
     if ctx.violations:
         return
+    grouped_check(ctx, chk)
+    if ctx.violations:
+        return
     if not quick and len(cases) > 60000:
         keep = sorted(rnd.sample(range(len(cases)), 60000))
         cases = [cases[i] for i in keep]
@@ -1765,6 +1843,16 @@ def replay(obj):
         text = obj["expr"]
         tree = ast.parse(text, mode="eval")
         which = obj["record"]["which"]
+        if which.startswith("grouped:"):
+            rc = 2
+            for cur in grouped_records():
+                if cur["which"] != which:
+                    continue
+                oi, oc, op, orf, os_ = run_pair(text, tree, cur, {}, ns=library_namespace(cur["rec"]))
+                print("replay %s on %s: interpreted=%r compiled=%r python=%r" % (text, fmt_vals(cur), truth_of(oi), truth_of(oc), truth_of(op)))
+                o = oi if obj.get("engine") == "interpreted" else oc
+                rc = 1 if (op[0] == "val" and os_[0] == "val" and truth_of(o) != truth_of(op)) else 0
+            return rc
         if which.startswith("layout:"):
             # the same sequence of layouts as in the check; every occurrence of the layout in question is judged
             from flow.record import RecordDescriptor
